@@ -8,7 +8,7 @@ records and the children lists are used; none of the model's reach products or `
   childless node; at a traverser node the σ-weighted sum of the children's values; at any other
   node (opponent / chance: already sampled) the plain sum of the children's values.
   Unrolled: `value c = Σ_{leaves ℓ below c} u(ℓ) · Π_{walker edges on the path c → ℓ} σ`
-  (`valueLeaves`, theorem `RP.C08.value_eq_valueLeaves`).
+  (theorem `RP.C08.C08_value_unrolled`).
 * `regret I a = Σ_{h ∈ I} ( value(h·a) − Σ_b σ(h,b) · value(h·b) )`. -/
 namespace RP.Cfr.Spec
 open RP.Cfr
@@ -60,17 +60,6 @@ def walkerProbAux (t : Tree α) (σ : Nat → Nat → α) (c : Nat) : Nat → Na
       | none => 1
 
 def walkerProb (t : Tree α) (σ : Nat → Nat → α) (c l : Nat) : α := walkerProbAux t σ c (l+1) l
-
-/-- indices of childless nodes that have `c` as ancestor-or-self (filter over all indices,
-    walking up the parent pointers) -/
-def isBelowAux (t : Tree α) (c : Nat) : Nat → Nat → Bool
-  | 0, _ => false
-  | f+1, l => if c = l then true else match t.parent l with
-    | some p => isBelowAux t c f p
-    | none => false
-
-def leavesBelow (t : Tree α) (c : Nat) : List Nat :=
-  (List.range t.size).filter (fun l => t.kids l == [] && isBelowAux t c (l+1) l)
 
 /-- `Σ_{ℓ ∈ L} u(ℓ) · Π σ` -/
 def valueOver (t : Tree α) (σ : Nat → Nat → α) (c : Nat) (L : List Nat) : α :=
